@@ -220,12 +220,40 @@ def list_chunk(args):
     return out, len(lists)
 
 
+def nary_probe():
+    """deconstruct_nary_application on applications written with notations whose head is a parameter: head and arguments rebuild
+    the application"""
+    from . import bridge
+    P = bridge.P
+    import proof_generation.proofs.kore as K
+    out = []
+    f, a, b = P.Symbol('f'), P.Symbol('s0'), P.EVar(0)
+    apply_ = P.Notation('apply', 2, P.App(P.MetaVar(0), P.MetaVar(1)), 'apply({0}, {1})')
+    idn = P.Notation('idn', 1, P.MetaVar(0), 'idn({0})')
+    cases = [apply_(f, a), apply_(P.App(f, a), b), apply_(apply_(f, a), b), idn(P.App(P.App(f, a), b)), apply_(idn(f), a),
+             K.nary_app(f, 2)(a, b), apply_(K.nary_app(f, 1)(a), b), idn(K.nary_app(f, 3)(a, b, a))]
+    for x in cases:
+        try:
+            head, args = K.deconstruct_nary_application(x)
+            rebuilt = head
+            for arg in args:
+                rebuilt = P.App(rebuilt, arg)
+            hd = bridge.expand(head)
+            if bridge.expand(rebuilt) != bridge.expand(x) or hd[0] == 'app':
+                out.append(({'op': 'deconstruct_nary_application'}, f'deconstruct_nary_application({x}) = ({head}, {args}): does not rebuild the application with an atomic head'))
+        except Exception as ex:  # noqa: BLE001
+            out.append(({'op': 'deconstruct_nary_application'}, f'deconstruct_nary_application({x}) raised {type(ex).__name__}'))
+    return out
+
+
 def notation_chunk(args):
     rows, pool_n = args
     from . import bridge
     P = bridge.P
     inst, nots = notation_instances(pool_n)
     out = {'evals': 0, 'arity0': 0, 'viol': []}
+    if rows and rows[0] == 0:
+        out['viol'] += nary_probe()
     # instances carry no back pointer to their notation: recompute the owning notation by definition identity
     for i in rows:
         app = inst[i]
@@ -272,6 +300,23 @@ def notation_chunk(args):
                     if r is None or bridge.expand(n(*r)) != bridge.expand(app):
                         out['viol'].append(({'op': 'matches/reordered', 'notation': n.label, 'arity': n.arity, 'args': repr(tuple(app.inst.values()))},
                                             f'{n.label}.matches({app}) with the argument map written as {list(v.inst.keys())} returns {r}: rebuilds a different pattern'))
+            ignored = [k for k in range(n.arity) if k not in n.definition.metavars()]
+            if ignored and n.arity >= 2:
+                # a parameter the definition ignores: the schematic application matches an instance whatever sits there, and a
+                # second occurrence of that metavariable elsewhere decides its value
+                k = ignored[0]
+                for other in (P.Symbol('other'), P.EVar(1)):
+                    pat = P.Implies(n(*[P.MetaVar(i) for i in range(n.arity)]), P.MetaVar(k))
+                    ins = P.Implies(app, other)
+                    want = ref_match(bridge.expand(pat), bridge.expand(ins), {})
+                    try:
+                        got = P.match_single(pat, ins)
+                    except Exception as ex:  # noqa: BLE001
+                        got = f'raised {type(ex).__name__}'
+                    g = None if got is None or isinstance(got, str) else {kk: bridge.expand(v) for kk, v in got.items()}
+                    if isinstance(want, dict) and g != want:
+                        out['viol'].append(({'op': 'match_ignored_parameter', 'notation': n.label, 'arity': n.arity},
+                                            f'match_single({pat}, {ins}) = {got}; expected a solution (parameter {k} of {n.label} is ignored by its definition)'))
             if n.arity == 0:
                 out['arity0'] += 1
             # the expansion (no notation at all) must be recognised too
